@@ -16,6 +16,7 @@ mod free;
 mod machines;
 mod minimize;
 mod oracle;
+mod plans;
 mod rng;
 mod runner;
 mod tape;
@@ -203,6 +204,12 @@ fn exec_art(a: &Art, stats: &mut Stats) -> Vec<Violation> {
 
 fn gen_free<M: Machine>(property: &str, seed: u64, run: u64, size: SizeClass) -> Trace {
     free::generate::<M>(property, seed, run, size)
+}
+fn gen_tree<M: Machine>(seed: u64, sched: u64, data_no: u64) -> Trace {
+    plans::generate_tree_run::<M>(seed, sched, data_no)
+}
+fn gen_long<M: Machine>(seed: u64, run: u64, max_pow10: u32) -> Trace {
+    plans::generate_long_run::<M>(seed, run, max_pow10)
 }
 fn gen_fault<M: Machine>(property: &str, seed: u64, run: u64, mode: faulty::Mode) -> Trace {
     faulty::generate::<M>(property, seed, run, mode)
@@ -431,16 +438,31 @@ fn run_c08(ctx: &Ctx) -> i32 {
     let (n_small, n_med) = if thorough { (1_000_000, 150_000) } else { (100_000, 15_000) };
     let b1 = free_batch("C08", &C08_MACHINES, n_small, SizeClass::Small, ctx.seed, "free/small(2..64 records)");
     let b2 = if b1.violations.is_empty() { free_batch("C08", &C08_MACHINES, n_med, SizeClass::Medium, ctx.seed ^ 0x11, "free/medium(2..4096 records)") } else { Batch::default() };
+    // long streams: "independent of the number of terms"
+    let (n_long, pow) = if thorough { (96u64, 7u32) } else { (24u64, 6u32) };
+    let seed = ctx.seed;
+    let b3: Batch<Art> = if b1.violations.is_empty() && b2.violations.is_empty() {
+        runner::run_batch("long streams (10^5 .. 10^6 quick / 10^7 thorough records, 1 .. 10^5 chunks)", n_long, true, move |j, stats| {
+            const LONG_MACHINES: [&str; 3] = ["KahanSum<f32>", "KahanSum<f64>", "Arithmetic<f32>"];
+            let m = LONG_MACHINES[(j % 3) as usize];
+            // f64 streams are capped one decade lower (the bound is the same, the cost is not)
+            let p = if m.contains("f64") { pow - 1 } else { pow };
+            let tr: Trace = dispatch_machine!(m, gen_long, seed, j / 3, p);
+            trace_job(tr, (j % 3) as u32, stats, j < 3)
+        })
+    } else {
+        Batch::default()
+    };
     let rule = "one evaluation = one seeded history (deliveries in 6 register styles, merges in 4 orientations, forks, empty operands, queries, final reduction by one of 5 merge policies) executed on the real KahanSum/Arithmetic and checked against the exact rational sum; distinct = distinct event-shape sequences (event kind, style, operator, chunk-length bucket; data erased); non-trivial = at least one merge and two non-empty deliveries";
     let assumptions = ["exact reference = fixed-point super-accumulator + num-bigint (sim/src/exact.rs)", "K = 8, bound (K*u + 4*n*u^2)*sum|x| (DESIGN 5.2)", "tape magnitudes bounded so that no sum overflows"];
-    let firsts: Vec<&(u64, Art, Violation)> = [&b1, &b2].iter().filter_map(|b| b.first_violation()).collect();
+    let firsts: Vec<&(u64, Art, Violation)> = [&b1, &b2, &b3].iter().filter_map(|b| b.first_violation()).collect();
     let mut new = 0;
     if let Some((_, a, v)) = firsts.first() {
         if report(ctx, a, v) {
             new = 1;
         }
     }
-    write_partial(ctx, "exploration", &[&b1, &b2], new, rule, &assumptions, json!({}), None);
+    write_partial(ctx, "exploration", &[&b1, &b2, &b3], new, rule, &assumptions, json!({}), None);
     if new > 0 {
         1
     } else {
@@ -453,16 +475,32 @@ fn run_c09(ctx: &Ctx) -> i32 {
     let (n_small, n_med) = if thorough { (300_000, 40_000) } else { (30_000, 4_000) };
     let b1 = free_batch("C09", &C09_MACHINES, n_small, SizeClass::Small, ctx.seed, "free/small(2..64 records)");
     let b2 = if b1.violations.is_empty() { free_batch("C09", &C09_MACHINES, n_med, SizeClass::Medium, ctx.seed ^ 0x22, "free/medium(2..4096 records)") } else { Batch::default() };
+    // every oriented merge tree over <= 5 chunks, with an empty chunk / empty operand at every position
+    let n_sched = plans::n_schedules();
+    let n_data: u64 = if thorough { 8 } else { 1 };
+    let seed = ctx.seed;
+    let nm = C09_MACHINES.len() as u64;
+    let b3: Batch<Art> = if b1.violations.is_empty() && b2.violations.is_empty() {
+        runner::run_batch("trees (every oriented binary merge tree over 2..5 chunks x empty chunk/operand at every position)", n_sched * n_data * nm, true, move |j, stats| {
+            let m = C09_MACHINES[(j % nm) as usize];
+            let rest = j / nm;
+            let (sched, data_no) = (rest % n_sched, rest / n_sched);
+            let tr: Trace = dispatch_machine!(m, gen_tree, seed, sched, data_no);
+            trace_job(tr, (j % nm) as u32, stats, j < nm && j % 4 == 0)
+        })
+    } else {
+        Batch::default()
+    };
     let rule = "one evaluation = one seeded API-call program over {new/default, append, extend (Vec/VecDeque/LinkedList/Option/array), from_iter, copy/clone, +, +=, inherent add, merge with empty, query} delivering a multiset to one of 12 machine kinds, compared with the batch computation of the same multiset; distinct = distinct event-shape sequences (data erased); non-trivial = at least one merge and two non-empty deliveries";
     let assumptions = ["tolerances are first-order rounding bounds with K = 8, c_v = 40 (DESIGN 5.3); below the conditioning threshold only count and mean are compared", "exact reference = sim/src/exact.rs"];
-    let firsts: Vec<&(u64, Art, Violation)> = [&b1, &b2].iter().filter_map(|b| b.first_violation()).collect();
+    let firsts: Vec<&(u64, Art, Violation)> = [&b1, &b2, &b3].iter().filter_map(|b| b.first_violation()).collect();
     let mut new = 0;
     if let Some((_, a, v)) = firsts.first() {
         if report(ctx, a, v) {
             new = 1;
         }
     }
-    write_partial(ctx, "exploration", &[&b1, &b2], new, rule, &assumptions, json!({}), None);
+    write_partial(ctx, "exploration", &[&b1, &b2, &b3], new, rule, &assumptions, json!({"merge_tree_schedules": n_sched, "data_sets_per_schedule": n_data}), Some("oriented binary merge trees over 2..5 labelled chunks (2+12+120+1680) x {plain, empty chunk at each leaf, empty operand after each node}: every schedule enumerated (data, chunk sizes, styles and operators are seeded)"));
     if new > 0 {
         1
     } else {
